@@ -8,13 +8,18 @@ CONF = {
             'small scope (6-letter batch alphabet x 20 programs x LossErrors) plus seeded random cases. Real goroutines play the '
             'assembler (Reassembled/ReassemblyComplete called directly) and the consumer; every Read result (bytes, error class), '
             'every Close, and whether both sides returned (watchdog) are compared with the extracted model; the Go oracle states '
-            'the property on the implementation. A seventh of the cases is also run by the model under 4 other schedules. Every case is executed twice on the real code: free-running, and a second time on ONE P (GOMAXPROCS(1)) with the consumer held back until the assembler is parked in its first send, so that Read receives from a parked sender and the following calls (reads from the same batch, Close) run before the assembler reaches <-r.done — the interleaving (model pc ASent) in which a non-blocking acknowledgement is lost; the oracle is applied to both executions and they must agree (clause C20:schedule).',
+            'the property on the implementation. A seventh of the cases is also run by the model under 4 other schedules. Every case is executed twice on the real code: free-running, and a second time on ONE P (GOMAXPROCS(1)) with the consumer held back until the assembler is parked in its first send, so that Read receives from a parked sender and the following calls (reads from the same batch, Close) run before the assembler reaches <-r.done — the interleaving (model pc ASent) in which a non-blocking acknowledgement is lost; the oracle is applied to both executions and two completed executions must agree (clause C20:schedule).',
     'shrink_keep_first': 0,
     'assumptions': [
         'Go unbuffered/nil/closed channel semantics as modelled (rendezvous; receive from a closed channel returns at once; '
         'send on / close of a closed or nil channel panics; operations on a nil channel block)',
-        'the Go scheduler runs runnable goroutines: the model proves "no step is enabled, for ever" / "always terminates", the harness '
-        'observes "both goroutines returned" or "neither finished nor had any call return on either side during a whole 200 ms watchdog period, and again during a 600 ms period in a fresh run" (label: partial)',
+        'the Go scheduler runs runnable goroutines: the model proves "no step is enabled, for ever" / "always terminates"; on the implementation '
+        '"stuck" is a two-stage verdict that does not depend on machine load: a fast no-progress watchdog (200 ms) in the worker pool only selects '
+        'suspects; each suspect is then run again alone (pool drained, free-running or on one P as in its phase) until both goroutines return or one '
+        'stop-the-world runtime.Stack dump shows every goroutine of the case parked in a channel operation or exited, at least one parked - only these '
+        'two goroutines can reach the channels, so that is a deadlock; a starved goroutine shows as runnable and the run keeps waiting (cap 120 s); '
+        'if no dump can be interpreted the fallback is 5 s without progress scaled up to 50 s by a ping-pong calibration (label: partial - the Go '
+        'runtime\'s goroutine states are trusted)',
         'one consumer goroutine (Read/Close are not called concurrently with each other), one assembler goroutine, the history ends '
         'with ReassemblyComplete; stream made by NewReaderStream (the zero-value stream is modelled and compared but outside the theorems)',
         'Read advancing Reassembly.Bytes in place inside the assembler-owned slice is not modelled (values are immutable lists)',
@@ -26,6 +31,6 @@ CONF = {
                    'C20_bytes: the events returned by Read (bytes, and a loss per Skip != 0 with LossErrors) followed by what is still '
                    'pending are exactly the delivered ones, EOF only at the end and then for ever; C20_schedule_independent: the final '
                    'state does not depend on the schedule (diamond property). PARTIAL for the deadlock part of the tie: the model proves '
-                   'stuck-for-ever / always-terminates, the harness observes a 200 ms (+600 ms confirmation) no-progress watchdog; a one-off -race build of the harness over the quick cases reported no data race. C20_assembler_waits_only_for_reader: the assembler is blocked only while the consumer holds the batch. '
+                   'stuck-for-ever / always-terminates, the harness reports stuck only on a runtime-certified deadlock (both goroutines parked in channel operations in one goroutine dump), found by a second-stage run alone; a one-off -race build of the harness over the quick cases reported no data race. C20_assembler_waits_only_for_reader: the assembler is blocked only while the consumer holds the batch. '
                    'C20_progress_refuted / C20_loss_refuted document the two defects of the unrepaired code; C20_nonblocking_ack_refuted shows (schedule witness) that the acknowledgement in Close has to be a blocking send: the model separates "send completed" (ASent) from "parked in <-r.done" (AWait).',
 }
